@@ -12,16 +12,20 @@
 (*       name Print is taken by the TLC module), a parenthesis only where   *)
 (*       the grammar needs one;                                            *)
 (*   - Ast(t): the set of edges <<operator token, operand1, operand2>>     *)
-(*       that cppcheck's documented AST convention assigns to PrintExpr(t)     *)
-(*       (tokens are named by their position in PrintExpr(t); 0 = no operand); *)
+(*       that cppcheck's documented AST convention assigns to PrintExpr(t) *)
+(*       (tokens are named by their position in PrintExpr(t); 0 = no       *)
+(*       operand); Expected(t, ..) = Ast(t) up to the tokenizer's sign     *)
+(*       normalisations that the convention leaves open;                   *)
 (*   - Parse: a reference parser for the ISO grammar (C11 6.5, C++17       *)
 (*       [expr]) over token sequences;                                     *)
-(*   - Trees(n): all well-typed trees with exactly n operators;            *)
+(*   - T(profile, sort, n): all well-typed trees with exactly n operators  *)
+(*       ("Trees(n)" of DESIGN.md), Stmts: the statements built from them; *)
 (*   - the judge that compares the edges observed in `cppcheck --dump`     *)
 (*       with Ast(t).                                                      *)
 (*                                                                         *)
-(* Laws checked by TLC on the spec alone (MODE = "laws"):                  *)
-(*     Parse(PrintExpr(t)) = t   for every enumerated tree (so the printer,    *)
+(* Laws checked by TLC on the spec alone (MODE = "laws", and on every case *)
+(* that MODE = "gen" writes):                                              *)
+(*     Parse(PrintExpr(t)) = t  for every enumerated tree (so the printer, *)
 (*     the precedence table and the grammar agree), printing is injective. *)
 (*                                                                         *)
 (* cppcheck's AST convention (lib/token.h astOperand1/2, the comments of   *)
